@@ -42,6 +42,10 @@ pub struct SeqCtx {
     /// hard cap on polls: beyond it the flag is flipped and `watchdog_fired` set
     pub watchdog: u64,
     pub watchdog_fired: bool,
+    /// self-play: number of distinct searches seen (a new stop flag = a new search) and the horizon at which the run is abandoned
+    pub searches_seen: u64,
+    pub last_flag: usize,
+    pub autoplay_horizon: u64,
 }
 
 impl SeqCtx {
@@ -64,6 +68,9 @@ impl SeqCtx {
             budgets: Vec::new(),
             watchdog: u64::MAX,
             watchdog_fired: false,
+            searches_seen: 0,
+            last_flag: 0,
+            autoplay_horizon: u64::MAX,
         }
     }
     pub fn with_input(lines: &[&str]) -> SeqCtx {
@@ -329,6 +336,15 @@ impl Drop for ThreadScope {
 pub fn on_node(flag: &AtomicBool, table: &mut crate::search::TranspositionTable, rem: u8, real: u8) {
     let seq = SEQ.with(|s| {
         if let Some(c) = s.borrow_mut().as_mut() {
+            let ptr = flag as *const AtomicBool as usize;
+            if ptr != c.last_flag {
+                c.last_flag = ptr;
+                c.searches_seen += 1;
+                c.polls_this_search = 0;
+                if c.searches_seen > c.autoplay_horizon {
+                    panic!("VERIF-HORIZON reached after {} searches", c.searches_seen - 1);
+                }
+            }
             let it = rem as u32 + real as u32;
             if it > c.max_iter_depth {
                 c.max_iter_depth = it;
